@@ -5,6 +5,8 @@ swap_remove, append, split_off, drain, into_iter, roundtrip) and for container d
 import HipVerif.Lemmas.SlotsInline
 namespace HipVerif.Slots
 
+variable {fl : Bool}
+
 theorem take_len_add {α} (A R : List α) (k : Nat) :
     (A ++ R).take (A.length + k) = A ++ R.take k := by
   simp [List.take_append, List.take_of_length_le]
@@ -13,10 +15,10 @@ theorem drop_len_add {α} (A R : List α) (k : Nat) : (A ++ R).drop (A.length + 
   simp [List.drop_append]
 
 /-- split the view at `i` -/
-theorem OwnL.split_at {s loc locB} (h : OwnL s loc locB) {i : Nat} (hi : i ≤ s.v.len) :
+theorem OwnL.split_at {s loc locB} (h : OwnL fl s loc locB) {i : Nat} (hi : i ≤ s.v.len) :
     ∃ L1 L2 rest, L1.length = i ∧ s.v.len = L1.length + L2.length ∧
       s.v.slots = L1.map .init ++ L2.map .init ++ rest ∧ HdrOk s.v ∧
-      Acct s.mem (loc ++ (prefL s.v.h ++ (L1 ++ L2))) (locB ++ bufL s.v.h) := by
+      Acct fl s.mem (loc ++ (prefL s.v.h ++ (L1 ++ L2))) (locB ++ bufL s.v.h) := by
   obtain ⟨L, rest, hl, hs, hp, ha⟩ := h
   refine ⟨L.take i, L.drop i, rest, by simp; omega, by simp; omega, ?_, hp, ?_⟩
   · rw [← List.map_append, List.take_append_drop]; exact hs
@@ -50,8 +52,8 @@ theorem Vec.writeChunk_cap {v : Vec} {d : Nat} {X : List Slot} (h : d + X.length
   simp only [Vec.cap, Vec.writeChunk, List.length_append, List.length_take, List.length_drop] at h ⊢
   omega
 
-theorem OwnL.insertCore {s x loc locB} {i : Nat} (h : OwnL s (x :: loc) locB)
-    (hi : i ≤ s.v.len) (hc : s.v.len < s.v.cap) : OwnL (iInsertCore i x s) loc locB := by
+theorem OwnL.insertCore {s x loc locB} {i : Nat} (h : OwnL fl s (x :: loc) locB)
+    (hi : i ≤ s.v.len) (hc : s.v.len < s.v.cap) : OwnL fl (iInsertCore i x s) loc locB := by
   obtain ⟨L1, L2, rest, e1, e2, e3, hp, ha⟩ := h.split_at hi
   have hchunk : s.v.range i (i + (s.v.len - i)) = L2.map .init :=
     Vec.range_mid e3 (by simp [e1]) (by simp; omega)
@@ -83,8 +85,8 @@ theorem OwnL.insertCore {s x loc locB} {i : Nat} (h : OwnL s (x :: loc) locB)
   · exact ha.perm (by simp only [St.setLen, Vec.setLen, Vec.write, Vec.writeChunk]; perm_tac)
 
 
-theorem iTryInsert_own {s loc locB} (i : Nat) (h : OwnL s loc locB) :
-    OwnL (iTryInsert i s).2 loc locB := by
+theorem iTryInsert_own {s loc locB} (i : Nat) (h : OwnL fl s loc locB) :
+    OwnL fl (iTryInsert i s).2 loc locB := by
   unfold iTryInsert
   have h1 := h.mkVal
   generalize s.onMem Mem.mkVal = r at h1
@@ -97,8 +99,8 @@ theorem iTryInsert_own {s loc locB} (i : Nat) (h : OwnL s loc locB) :
     · have := h1.len_le
       exact h1.insertCore (by omega) (by omega)
 
-theorem iInsert_own {s loc locB} (i : Nat) (h : OwnL s loc locB) :
-    OwnL (iInsert i s).2 loc locB := by
+theorem iInsert_own {s loc locB} (i : Nat) (h : OwnL fl s loc locB) :
+    OwnL fl (iInsert i s).2 loc locB := by
   unfold iInsert
   have h1 := h.mkVal
   generalize s.onMem Mem.mkVal = r at h1
@@ -113,9 +115,9 @@ theorem iInsert_own {s loc locB} (i : Nat) (h : OwnL s loc locB) :
 the length is set to cover them: they now belong to the container. -/
 theorem ownL_of_writeChunk {s : St} {loc locB A T : List Nat} {R : List Slot}
     (hs : s.v.slots = A.map .init ++ R) (hp : HdrOk s.v)
-    (ha : Acct s.mem (loc ++ (prefL s.v.h ++ (A ++ T))) (locB ++ bufL s.v.h)) {d n : Nat}
+    (ha : Acct fl s.mem (loc ++ (prefL s.v.h ++ (A ++ T))) (locB ++ bufL s.v.h)) {d n : Nat}
     (hd : d = A.length) (hn : n = A.length + T.length) (hb : d + T.length ≤ s.v.cap) :
-    OwnL ({ s with v := (s.v.writeChunk d (T.map .init)).setLen n }) loc locB := by
+    OwnL fl ({ s with v := (s.v.writeChunk d (T.map .init)).setLen n }) loc locB := by
   subst hd hn
   obtain ⟨Y, hY⟩ := writeChunk_at (A := A.map .init) (R := R) (X := T.map .init)
   refine ⟨A ++ T, Y, by simp [Vec.setLen], ?_,
@@ -126,8 +128,8 @@ theorem ownL_of_writeChunk {s : St} {loc locB A T : List Nat} {R : List Slot}
   simp only [List.length_map] at hY
   rw [hY]; simp
 
-theorem iRemove_own {s loc locB} (i : Nat) (h : OwnL s loc locB) :
-    OwnL (iRemove i s).2 loc locB := by
+theorem iRemove_own {s loc locB} (i : Nat) (h : OwnL fl s loc locB) :
+    OwnL fl (iRemove i s).2 loc locB := by
   unfold iRemove
   split
   · rename_i hi
@@ -172,11 +174,11 @@ theorem set_mid2 {α} (A B C : List α) (x y w : α) {n : Nat} (hn : n = A.lengt
   simp
 
 /-- result of removing the element at `i` by swapping the last one in: the ids that stay -/
-theorem OwnL.split_swap {s loc locB} (h : OwnL s loc locB) {i : Nat} (hi : i < s.v.len) :
+theorem OwnL.split_swap {s loc locB} (h : OwnL fl s loc locB) {i : Nat} (hi : i < s.v.len) :
     ∃ (L1 : List Nat) (a : Nat) (K : List Nat) (rest : List Slot) (z : Slot),
       L1.length = i ∧ s.v.len = L1.length + 1 + K.length ∧ HdrOk s.v ∧
       s.v.get i = .init a ∧
-      Acct s.mem (a :: loc ++ (prefL s.v.h ++ (L1 ++ K))) (locB ++ bufL s.v.h) ∧
+      Acct fl s.mem (a :: loc ++ (prefL s.v.h ++ (L1 ++ K))) (locB ++ bufL s.v.h) ∧
       ((s.v.slots.set i (s.v.get (s.v.len - 1))).set (s.v.len - 1) (s.v.get i)
           = (L1 ++ K).map .init ++ .init a :: rest) ∧
       (s.v.slots.take i ++ [s.v.get (s.v.len - 1)] ++ s.v.slots.drop (i + 1)
@@ -212,8 +214,8 @@ theorem Vec.range_one {v : Vec} {j : Nat} (hj : j < v.cap) : v.range j (j + 1) =
   simp only [Vec.range, Vec.get, show j + 1 - j = 1 by omega]
   rw [take_one_drop _ _ hj, List.getElem?_eq_getElem hj]; rfl
 
-theorem iSwapRemove_own {s loc locB} (i : Nat) (h : OwnL s loc locB) :
-    OwnL (iSwapRemove i s).2 loc locB := by
+theorem iSwapRemove_own {s loc locB} (i : Nat) (h : OwnL fl s loc locB) :
+    OwnL fl (iSwapRemove i s).2 loc locB := by
   unfold iSwapRemove
   split
   · rename_i hi
@@ -233,8 +235,8 @@ theorem iSwapRemove_own {s loc locB} (i : Nat) (h : OwnL s loc locB) :
       hp.of_eq rfl (by simp [St.setLen, Vec.setLen, Vec.swap, Vec.cap]), ha⟩
   · exact h
 
-theorem tSwapRemove_own {s loc locB} (i : Nat) (h : OwnL s loc locB) :
-    OwnL (tSwapRemove i s).2 loc locB := by
+theorem tSwapRemove_own {s loc locB} (i : Nat) (h : OwnL fl s loc locB) :
+    OwnL fl (tSwapRemove i s).2 loc locB := by
   unfold tSwapRemove
   split
   · rename_i hi
@@ -254,8 +256,8 @@ theorem tSwapRemove_own {s loc locB} (i : Nat) (h : OwnL s loc locB) :
   · exact h
 
 
-theorem OwnL.perm {s loc loc' locB} (h : OwnL s loc locB) (hp : loc'.Perm loc) :
-    OwnL s loc' locB := by
+theorem OwnL.perm {s loc loc' locB} (h : OwnL fl s loc locB) (hp : loc'.Perm loc) :
+    OwnL fl s loc' locB := by
   obtain ⟨L, rest, e1, e2, e3, e4⟩ := h
   exact ⟨L, rest, e1, e2, e3, e4.perm (List.Perm.append_right _ hp)⟩
 
@@ -263,11 +265,11 @@ theorem OwnL.perm {s loc loc' locB} (h : OwnL s loc locB) (hp : loc'.Perm loc) :
 the iterator; each step hands one of them to the caller; the slots are never written. -/
 theorem iterSteps_own {loc locB} : ∀ (script : List IStep) (c : Cur) (s : St) (A : List Slot)
     (M : List Nat) (C : List Slot), s.v.slots = A ++ M.map .init ++ C → c.lo = A.length →
-    c.hi = A.length + M.length → OwnL s (M ++ loc) locB →
+    c.hi = A.length + M.length → OwnL fl s (M ++ loc) locB →
     ∃ A' M' C', (iterSteps script c s).2.v = s.v ∧ s.v.slots = A' ++ M'.map .init ++ C' ∧
       (iterSteps script c s).1.lo = A'.length ∧
       (iterSteps script c s).1.hi = A'.length + M'.length ∧
-      OwnL (iterSteps script c s).2 (M' ++ loc) locB
+      OwnL fl (iterSteps script c s).2 (M' ++ loc) locB
   | [], c, s, A, M, C, hs, hlo, hhi, h => ⟨A, M, C, rfl, hs, hlo, hhi, h⟩
   | .front :: r, c, s, A, M, C, hs, hlo, hhi, h => by
     unfold iterSteps
@@ -279,7 +281,7 @@ theorem iterSteps_own {loc locB} : ∀ (script : List IStep) (c : Cur) (s : St) 
         have hg : s.v.get c.lo = .init a :=
           Vec.get_mid (A := A) (C := M.map .init ++ C) (by simp [hs]) hlo
         simp only [St.onMem_eq, hg, Mem.readMove]
-        have h1 : OwnL (St.withMem (Mem.retId a) { s with mem := s.mem }) (M ++ loc) locB :=
+        have h1 : OwnL fl (St.withMem (Mem.retId a) { s with mem := s.mem }) (M ++ loc) locB :=
           OwnL.retId h
         obtain ⟨A', M', C', e1, e2, e3, e4, e5⟩ :=
           iterSteps_own r { c with lo := c.lo + 1 } _ (A ++ [.init a]) M C (by simp [hs])
@@ -296,8 +298,8 @@ theorem iterSteps_own {loc locB} : ∀ (script : List IStep) (c : Cur) (s : St) 
           Vec.get_mid (A := A ++ M0.map .init) (C := C) (by simp [hs])
             (by simp at hhi ⊢; omega)
         simp only [St.onMem_eq, hg, Mem.readMove]
-        have h0 : OwnL s (z :: (M0 ++ loc)) locB := h.perm (by perm_tac)
-        have h1 : OwnL (St.withMem (Mem.retId z) { s with mem := s.mem }) (M0 ++ loc) locB :=
+        have h0 : OwnL fl s (z :: (M0 ++ loc)) locB := h.perm (by perm_tac)
+        have h1 : OwnL fl (St.withMem (Mem.retId z) { s with mem := s.mem }) (M0 ++ loc) locB :=
           OwnL.retId h0
         obtain ⟨A', M', C', e1, e2, e3, e4, e5⟩ :=
           iterSteps_own r { c with hi := c.hi - 1 } _ A M0 (.init z :: C) (by simp [hs])
@@ -315,11 +317,11 @@ theorem map_init_inj : ∀ {L L' : List Nat}, L.map Slot.init = L'.map Slot.init
     rw [h.1, map_init_inj h.2]
 
 /-- three-way split of the view at `a ≤ b ≤ len` -/
-theorem OwnL.split3 {s loc locB} (h : OwnL s loc locB) {a b : Nat} (hab : a ≤ b)
+theorem OwnL.split3 {s loc locB} (h : OwnL fl s loc locB) {a b : Nat} (hab : a ≤ b)
     (hb : b ≤ s.v.len) :
     ∃ L1 M T rest, L1.length = a ∧ M.length = b - a ∧ s.v.len = b + T.length ∧
       s.v.slots = L1.map .init ++ M.map .init ++ (T.map .init ++ rest) ∧ HdrOk s.v ∧
-      Acct s.mem (M ++ (T ++ loc) ++ (prefL s.v.h ++ L1)) (locB ++ bufL s.v.h) := by
+      Acct fl s.mem (M ++ (T ++ loc) ++ (prefL s.v.h ++ L1)) (locB ++ bufL s.v.h) := by
   obtain ⟨Lb, T, rest, e1, e2, e3, hp, ha⟩ := h.split_at hb
   refine ⟨Lb.take a, Lb.drop a, T, rest, by simp; omega, by simp; omega, by omega, ?_, hp, ?_⟩
   · rw [← List.map_append, List.take_append_drop, e3, List.append_assoc]
@@ -336,19 +338,22 @@ theorem drainDrop_own {s : St} {loc locB L1 M' T : List Nat} {G rest : List Slot
     {ts tl : Nat} (hs : s.v.slots = L1.map .init ++ G ++ (T.map .init ++ rest))
     (hlen : s.v.len = L1.length) (hr : s.v.range c.lo c.hi = M'.map .init)
     (hts : ts = L1.length + G.length) (htl : tl = T.length) (hp : HdrOk s.v)
-    (ha : Acct s.mem (M' ++ (T ++ loc) ++ (prefL s.v.h ++ L1)) (locB ++ bufL s.v.h)) :
-    OwnL (drainDrop c ts tl s).2 loc locB := by
-  have h0 : OwnL s (M' ++ (T ++ loc)) locB :=
+    (ha : Acct fl s.mem (M' ++ (T ++ loc) ++ (prefL s.v.h ++ L1)) (locB ++ bufL s.v.h)) :
+    OwnL fl (drainDrop c ts tl s).2 loc locB := by
+  have h0 : OwnL fl s (M' ++ (T ++ loc)) locB :=
     ⟨L1, G ++ (T.map .init ++ rest), hlen, by simp [hs], hp, ha⟩
   unfold drainDrop
   rw [hr]
-  have h1 : OwnL (s.onMem (Mem.dropSlice (M'.map .init))).2 (T ++ loc) locB := h0.dropSlice
+  have h1 : OwnL fl (s.onMem (Mem.dropSlice (M'.map .init))).2 (T ++ loc) locB := h0.dropSlice
   have hv : (s.onMem (Mem.dropSlice (M'.map .init))).2.v = s.v := rfl
-  generalize s.onMem (Mem.dropSlice (M'.map .init)) = r2 at h1 hv ⊢
+  have hp0 : fl = true → (s.onMem (Mem.dropSlice (M'.map .init))).1 = false :=
+    fun hf => (Mem.dropSlice_of_none _ _ (h0.budget_none hf)).1
+  generalize s.onMem (Mem.dropSlice (M'.map .init)) = r2 at h1 hv hp0 ⊢
   obtain ⟨p, s2⟩ := r2
-  simp only at h1 hv ⊢
+  simp only at h1 hv hp0 ⊢
   split
-  · exact h1.leak
+  · rename_i hpt
+    exact h1.leak (fun hf => by rw [hp0 hf] at hpt; cases hpt)
   · have hs2 : s2.v.slots = (L1.map Slot.init ++ G) ++ T.map .init ++ rest := by
       rw [hv, hs]; simp
     have hchunk : s2.v.range ts (ts + tl) = T.map .init :=
@@ -371,13 +376,14 @@ theorem drainDrop_own {s : St} {loc locB L1 M' T : List Nat} {G rest : List Slot
     exact e4.perm (by perm_tac)
 
 theorem drainOp_own {s loc locB} (a b : Nat) (script : List IStep) (fin : IFin)
-    (h : OwnL s loc locB) : OwnL (drainOp a b script fin s).2 loc locB := by
+    (h : OwnL fl s loc locB) (hfin : fl = true → fin = .drop) :
+    OwnL fl (drainOp a b script fin s).2 loc locB := by
   unfold drainOp
   split
   · rename_i hab
     obtain ⟨L1, M, T, rest, e1, e2, e3, e4, hp, ha⟩ := h.split3 hab.1 hab.2
     have hle := h.len_le
-    have h0 : OwnL (s.setLen a) (M ++ (T ++ loc)) locB :=
+    have h0 : OwnL fl (s.setLen a) (M ++ (T ++ loc)) locB :=
       ⟨L1, M.map .init ++ (T.map .init ++ rest), by simp [e1], by simp [e4], hp, ha⟩
     obtain ⟨A', M', C', f1, f2, f3, f4, f5⟩ :=
       iterSteps_own script { lo := a, hi := b } (s.setLen a) (L1.map .init) M
@@ -387,7 +393,7 @@ theorem drainOp_own {s loc locB} (a b : Nat) (script : List IStep) (fin : IFin)
     obtain ⟨c, s1⟩ := r
     simp only at f1 f3 f4 f5 ⊢
     cases fin with
-    | leak => exact f5.leak.leak
+    | leak => exact (f5.leak (fun hf => by cases hfin hf)).leak (fun hf => by cases hfin hf)
     | drop =>
       simp only
       obtain ⟨L, rest', g1, g2, g3, g4⟩ := f5
@@ -408,35 +414,45 @@ theorem drainOp_own {s loc locB} (a b : Nat) (script : List IStep) (fin : IFin)
   · exact h
 
 
-theorem Acct.weakenB {m l B B'} (h : Acct m l B) (hn : B'.Nodup) (hs : ∀ b ∈ B', b ∈ B) :
-    Acct m l B' :=
+theorem Acct.weakenB {m l B B'} (h : Acct fl m l B) (hn : B'.Nodup) (hs : ∀ b ∈ B', b ∈ B) :
+    Acct fl m l B' :=
   { h with bnodup := hn, blive := fun b hb => h.blive b (hs b hb) }
 
-/-- the container ceases to exist; whatever it still owned is leaked -/
-theorem OwnL.kill {s loc locB} (h : OwnL s loc locB) :
-    OwnL { s with v := { s.v with len := 0, h := { s.v.h with alive := false } } } loc locB := by
+/-- the container ceases to exist; whatever it still owned is leaked (under the no-leak flag: it
+must own nothing any more) -/
+theorem OwnL.kill {s loc locB} (h : OwnL fl s loc locB)
+    (hk : fl = true → s.v.len = 0 ∧ prefL s.v.h = []) :
+    OwnL fl { s with v := { s.v with len := 0, h := { s.v.h with alive := false } } } loc locB := by
   obtain ⟨L, rest, e1, e2, e3, e4⟩ := h
   refine ⟨[], s.v.slots, rfl, by simp, ?_, ?_⟩
   · exact ⟨fun _ _ h => by simp at h, fun _ h => by simp at h⟩
-  · have h1 : Acct s.mem (loc ++ []) (locB ++ bufL s.v.h) :=
+  · have h1 : Acct fl s.mem (loc ++ []) (locB ++ bufL s.v.h) :=
       e4.weaken (by simpa using (List.nodup_append.mp e4.nodup).1)
         (fun a ha => by simp at ha; exact List.mem_append_left _ ha)
+        (fun hf a ha => by
+          obtain ⟨k1, k2⟩ := hk hf
+          have hL : L = [] := List.eq_nil_of_length_eq_zero (by omega)
+          simpa [k2, hL] using ha)
     have : prefL { s.v.h with alive := false } = [] := by simp [prefL]
     have hb : bufL { s.v.h with alive := false } = [] := by simp [bufL]
     simp only [this, hb, List.append_nil] at h1 ⊢
     exact h1.weakenB (List.nodup_append.mp e4.bnodup).1 (fun b hb => List.mem_append_left _ hb)
 
 /-- the whole view becomes locally owned (`set_len(0)`, or the container is consumed) -/
-theorem OwnL.take_all {s loc locB} (h : OwnL s loc locB) :
-    ∃ (L : List Nat), s.v.range 0 s.v.len = L.map .init ∧ OwnL (s.setLen 0) (L ++ loc) locB := by
+theorem OwnL.take_all {s loc locB} (h : OwnL fl s loc locB) :
+    ∃ (L : List Nat), s.v.range 0 s.v.len = L.map .init ∧ OwnL fl (s.setLen 0) (L ++ loc) locB := by
   obtain ⟨tl, e1, -, e3⟩ := h.setLen_take (n := 0) (Nat.zero_le _)
   exact ⟨tl, e1, e3⟩
 
-theorem iDrop_own {s loc locB} (h : OwnL s loc locB) : OwnL (iDrop s).2 loc locB := by
+theorem prefL_of_not_thin {h : Hdr} (ht : h.thin = false) : prefL h = [] := by
+  simp [prefL, ht]
+
+theorem iDrop_own {s loc locB} (h : OwnL fl s loc locB) (hth : fl = true → s.v.h.thin = false) :
+    OwnL fl (iDrop s).2 loc locB := by
   unfold iDrop
   obtain ⟨L, e1, e2⟩ := h.take_all
   rw [e1]
-  have h1 := e2.dropLoop.kill
+  have h1 := e2.dropLoop.kill (fun hf => ⟨rfl, prefL_of_not_thin (hth hf)⟩)
   exact h1
 
 theorem iterSteps_setLen : ∀ (sc : List IStep) (c : Cur) (s : St) (n : Nat),
@@ -459,10 +475,13 @@ theorem iterSteps_setLen : ∀ (sc : List IStep) (c : Cur) (s : St) (n : Nat),
     · simp only [if_neg hlt]; exact iterSteps_setLen r c s n
 
 /-- the container is replaced by a fresh empty InlineVec; whatever it owned is leaked -/
-theorem OwnL.renew {s loc locB} (c : Nat) (h : OwnL s loc locB) :
-    OwnL { s with v := iNew c } loc locB := by
-  have := h.kill
+theorem OwnL.renew {s loc locB} (c : Nat) (h : OwnL fl s loc locB)
+    (hk : fl = true → s.v.len = 0 ∧ prefL s.v.h = []) :
+    OwnL fl { s with v := iNew c } loc locB := by
+  have := h.kill hk
   obtain ⟨L, rest, e1, e2, e3, e4⟩ := this
+  have hL : L = [] := List.eq_nil_of_length_eq_zero (by simpa using e1.symm)
+  subst hL
   refine ⟨[], uninits c, rfl, by simp [iNew], ?_, ?_⟩
   · exact ⟨fun h => by simp [iNew] at h, fun h => by simp [iNew] at h⟩
   · have hp : prefL (iNew c).h = [] := by simp [prefL, iNew]
@@ -472,9 +491,11 @@ theorem OwnL.renew {s loc locB} (c : Nat) (h : OwnL s loc locB) :
     simp only [hp', hb', hp, hb] at e4 ⊢
     exact e4.weaken (by simpa using (List.nodup_append.mp e4.nodup).1)
         (fun a ha => by simp at ha; exact List.mem_append_left _ ha)
+        (fun _ a ha => by simpa using ha)
 
-theorem iIntoIter_own {s loc locB} (script : List IStep) (fin : IFin) (h : OwnL s loc locB) :
-    OwnL (iIntoIter script fin s).2 loc locB := by
+theorem iIntoIter_own {s loc locB} (script : List IStep) (fin : IFin) (h : OwnL fl s loc locB)
+    (hfin : fl = true → fin = .drop) (hth : fl = true → s.v.h.thin = false) :
+    OwnL fl (iIntoIter script fin s).2 loc locB := by
   unfold iIntoIter
   obtain ⟨L, e1, e2⟩ := h.take_all
   obtain ⟨L0, rest, g1, g2, -, -⟩ := h
@@ -493,8 +514,12 @@ theorem iIntoIter_own {s loc locB} (script : List IStep) (fin : IFin) (h : OwnL 
   simp only at f1 f3 f4 f5 ⊢
   have hv : s1.v.slots = s.v.slots := by
     have := congrArg Vec.slots f1; simpa using this
+  have hh : s1.v.h = s.v.h := by
+    have := congrArg Vec.h f1; simpa using this
+  have hk : fl = true → (s1.setLen 0).v.len = 0 ∧ prefL (s1.setLen 0).v.h = [] :=
+    fun hf => ⟨rfl, prefL_of_not_thin (by simpa [hh] using hth hf)⟩
   cases fin with
-  | leak => exact (f5.leak.renew s1.v.cap)
+  | leak => exact ((f5.leak (fun hf => by cases hfin hf)).renew s1.v.cap hk)
   | drop =>
     have hr : s1.v.range c.lo c.hi = M'.map .init := by
       have : s1.v.range c.lo c.hi = (s.setLen 0).v.range c.lo c.hi := by
@@ -502,7 +527,7 @@ theorem iIntoIter_own {s loc locB} (script : List IStep) (fin : IFin) (h : OwnL 
       rw [this]
       exact Vec.range_mid f2 f3 (by simpa using f4)
     simp only [hr]
-    have h3 := (f5.dropLoop).renew s1.v.cap
+    have h3 := (f5.dropLoop).renew s1.v.cap hk
     exact h3
 
 
@@ -525,10 +550,10 @@ theorem LocalVec.store {o acc b} (h : LocalVec o acc) (hc : o.len < o.cap) :
     simp [Vec.store, Vec.setLen, this]
 
 theorem cloneIntoLocal_own {loc locB} : ∀ (M : List Nat) (o : Vec) (acc : List Nat) (s : St),
-    OwnL s (acc ++ loc) locB → LocalVec o acc → o.len + M.length ≤ o.cap →
+    OwnL fl s (acc ++ loc) locB → LocalVec o acc → o.len + M.length ≤ o.cap →
     (∀ a ∈ M, a ∉ s.mem.out) →
     ∃ acc', LocalVec (cloneIntoLocal (M.map .init) o s).2.1 acc' ∧
-      OwnL (cloneIntoLocal (M.map .init) o s).2.2 (acc' ++ loc) locB
+      OwnL fl (cloneIntoLocal (M.map .init) o s).2.2 (acc' ++ loc) locB
   | [], o, acc, s, h, ho, _, _ => ⟨acc, ho, h⟩
   | a :: as, o, acc, s, h, ho, hc, hm => by
     simp only [List.map_cons, cloneIntoLocal]
@@ -537,7 +562,7 @@ theorem cloneIntoLocal_own {loc locB} : ∀ (M : List Nat) (o : Vec) (acc : List
       simp only at h1 ⊢
     · exact ⟨acc, ho, h1.1⟩
     · have hc' : o.len < o.cap := by simp at hc; omega
-      have h2 : OwnL (s'.chk (decide (o.len < o.cap))) ((acc ++ [b]) ++ loc) locB := by
+      have h2 : OwnL fl (s'.chk (decide (o.len < o.cap))) ((acc ++ [b]) ++ loc) locB := by
         simp only [St.chk, hc', decide_true, if_true]
         exact h1.1.perm (by perm_tac)
       refine cloneIntoLocal_own as _ (acc ++ [b]) _ h2 (ho.store hc') ?_ ?_
@@ -549,7 +574,7 @@ theorem cloneIntoLocal_own {loc locB} : ∀ (M : List Nat) (o : Vec) (acc : List
 
 theorem LocalVec.iNew (c : Nat) : LocalVec (iNew c) [] := ⟨rfl, uninits c, by simp [HipVerif.Slots.iNew]⟩
 
-theorem iClone_own {s loc locB} (h : OwnL s loc locB) : OwnL (iClone s).2 loc locB := by
+theorem iClone_own {s loc locB} (h : OwnL fl s loc locB) : OwnL fl (iClone s).2 loc locB := by
   unfold iClone
   obtain ⟨M, e1, e2, e3⟩ := h.range_live (Nat.zero_le _) (Nat.le_refl s.v.len)
   have hle := h.len_le
@@ -565,8 +590,8 @@ theorem iClone_own {s loc locB} (h : OwnL s loc locB) : OwnL (iClone s).2 loc lo
 
 theorem markDropSlots_nil (m : Mem) : Mem.markDropSlots [] m = m := rfl
 
-theorem iAppend_own {s loc locB} (n : Nat) (h : OwnL s loc locB) :
-    OwnL (iAppend n s).2 loc locB := by
+theorem iAppend_own {s loc locB} (n : Nat) (h : OwnL fl s loc locB) :
+    OwnL fl (iAppend n s).2 loc locB := by
   unfold iAppend
   obtain ⟨hl, hv, ho⟩ := mkVals_own n s h
   generalize mkVals n s = r at hl hv ho ⊢
@@ -596,8 +621,8 @@ theorem LocalVec.writeChunk0 (o : Vec) (T : List Nat) {n : Nat} (hn : n = T.leng
   refine ⟨by simp [Vec.setLen, hn], o.slots.drop (0 + (T.map Slot.init).length), ?_⟩
   simp [Vec.setLen, Vec.writeChunk]
 
-theorem iSplitOff_own {s loc locB} (at_ : Nat) (h : OwnL s loc locB) :
-    OwnL (iSplitOff at_ s).2 loc locB := by
+theorem iSplitOff_own {s loc locB} (at_ : Nat) (h : OwnL fl s loc locB) :
+    OwnL fl (iSplitOff at_ s).2 loc locB := by
   unfold iSplitOff
   split
   · rename_i hat
